@@ -12,7 +12,7 @@ from toasty import collection
 from toasty.builder import Builder
 from toasty.pyramid import Pos, PyramidIO
 
-from . import fitsgen
+from . import common, fitsgen
 
 
 class RecordingPIO(PyramidIO):
@@ -64,9 +64,77 @@ def geometric_expected(col):
     return out
 
 
+UPDATED = []        # (identifying value of the source image, pixels copied) per update_into_maskable_buffer call
+
+
+@contextmanager
+def recording_updates():
+    """Record, per source image, how many pixels toasty copies into tile buffers (class-level wrapper: simulated
+    worker processes are threads of this interpreter)."""
+    from toasty.image import Image
+    orig = Image.update_into_maskable_buffer
+    ident = {}
+
+    def wrapper(self, buffer, iy_idx, ix_idx, by_idx, bx_idx):
+        k = id(self)
+        if k not in ident:
+            a = np.asarray(self.asarray())
+            fin = a[np.isfinite(a)] if a.dtype.kind == "f" else a.ravel()
+            ident[k] = (float(fin[0]) if fin.size else float("nan"), self)       # keep the object alive: ids stay unique
+        h = len(range(*iy_idx.indices(self.height)))
+        w = len(range(*ix_idx.indices(self.width)))
+        UPDATED.append((repr(ident[k][0]), h * w))
+        return orig(self, buffer, iy_idx, ix_idx, by_idx, bx_idx)
+
+    del UPDATED[:]
+    Image.update_into_maskable_buffer = wrapper
+    try:
+        yield
+    finally:
+        Image.update_into_maskable_buffer = orig
+
+
+def tile_contents(outdir, fmt):
+    import hashlib
+    from toasty.image import ImageLoader
+    out = {}
+    for root, _dirs, files in os.walk(outdir):
+        for f in files:
+            if f.endswith("." + fmt):
+                a = np.ascontiguousarray(ImageLoader().load_path(os.path.join(root, f)).asarray())
+                out[os.path.relpath(os.path.join(root, f), outdir)] = hashlib.sha1(repr((a.shape, a.dtype.str)).encode() + a.tobytes()).hexdigest()
+    return out
+
+
 class MultiTanStage(object):
     name = "multi_tan"
     needs_dir = True
+    # how an input is cut up while it is copied into tiles is toasty's business: the history oracle compares the *set*
+    # of tiles updated per input overlap; exactly-once is decided per input image by the number of pixels copied, and
+    # the result by the content of the output tiles (overlapping inputs agree in value), both against the serial run
+    set_only = True
+
+    def after_serial(self, d):
+        self.reference = (Counter(), tile_contents(os.path.join(d, "out"), self.fmt))
+        for v, n in self.last_updated:
+            self.reference[0][v] += n
+
+    def check_outputs(self, d):
+        ref = getattr(self, "reference", None)
+        if ref is None:
+            return None
+        got = Counter()
+        for v, n in self.last_updated:
+            got[v] += n
+        if got != ref[0]:
+            bad = sorted(v for v in set(got) | set(ref[0]) if got.get(v, 0) != ref[0].get(v, 0))[:3]
+            return "pixels copied into tiles per input image differ from the serial mode (value, parallel, serial): %s" % (
+                [(v, got.get(v, 0), ref[0].get(v, 0)) for v in bad],)
+        cont = tile_contents(os.path.join(d, "out"), self.fmt)
+        if cont != ref[1]:
+            diff = sorted(k for k in set(cont) | set(ref[1]) if cont.get(k) != ref[1].get(k))[:4]
+            return "output tiles differ from the serial mode: %s" % (diff,)
+        return None
 
     def __init__(self, ch):
         self.col = fitsgen.draw_collection(ch, max_images=5, sizes=(60, 200, 300, 520))
@@ -86,6 +154,13 @@ class MultiTanStage(object):
         corrupt_one(self, d)
 
     def run(self, parallel, rec, env_dir=None):
+        with recording_updates():
+            try:
+                return self._run(parallel, rec, env_dir)
+            finally:
+                self.last_updated = list(UPDATED)
+
+    def _run(self, parallel, rec, env_dir):
         from toasty.multi_tan import MultiTanProcessor
         coll = collection.load(self.col.paths)
         pio = RecordingPIO(os.path.join(env_dir, "out"), default_format=self.fmt)
@@ -93,7 +168,7 @@ class MultiTanStage(object):
         b = Builder(pio)
         proc = MultiTanProcessor(coll)
         proc.compute_global_pixelization(b)
-        proc.tile(pio, parallel=parallel)
+        proc.tile(pio, parallel=parallel, **common.pkw())
 
 
 def standin_reproject(input_data, output_projection=None, shape_out=None, return_footprint=False, **kw):
@@ -102,13 +177,39 @@ def standin_reproject(input_data, output_projection=None, shape_out=None, return
     arr, _wcs = input_data
     fin = arr[np.isfinite(arr)]
     v = fin[0] if fin.size else np.nan
+    REPROJECTED.append((repr(float(v)), int(shape_out[0]) * int(shape_out[1])))
     return np.full(shape_out, v, dtype=np.float64)
+
+
+# (identifying value of the input, pixels reprojected) per call of the stand-in; simulated worker processes are threads
+# of this interpreter, so one list sees them all
+REPROJECTED = []
+
+
+def defined_masks(outdir, fmt):
+    """tile -> sha1 of its defined-pixel mask (which pixels received data does not depend on the order in which
+    overlapping inputs were applied, nor on how an input was cut into chunks)."""
+    import hashlib
+    out = {}
+    ext = "." + fmt
+    for root, _dirs, files in os.walk(outdir):
+        for f in files:
+            if f.endswith(ext):
+                from toasty.image import ImageLoader
+                img = ImageLoader().load_path(os.path.join(root, f))
+                a = img.asarray()
+                out[os.path.relpath(os.path.join(root, f), outdir)] = hashlib.sha1(np.isnan(a).tobytes()).hexdigest()
+    return out
 
 
 class MultiWcsStage(object):
     name = "multi_wcs"
     needs_dir = True
     expected_from_serial = True
+    # how an input is cut into reprojection chunks is toasty's business (and may differ between modes): the history
+    # oracle compares the *set* of tiles updated; exactly-once is decided per input image by the number of pixels
+    # reprojected for it, and completeness by the defined-pixel masks of the output tiles, both against the serial run
+    set_only = True
 
     def __init__(self, ch):
         self.col = fitsgen.draw_collection(ch, max_images=4, sizes=(60, 200, 300))
@@ -117,11 +218,15 @@ class MultiWcsStage(object):
         self.col.scale = 1.0 / 1024
         self.col.dec = (20.0, -45.5)[ch.draw(2, kind="dec2")]
         self.fmt = ("fits", "npy")[ch.draw(2, kind="tile_format")]
+        # tuning knob: the reprojection chunk size (rows per chunk = MAXIMUM_CHUNK_SIZE // width); the shipped value
+        # (128 Mpixel) never splits a small image, the small ones force several chunks per input
+        self.chunk_pixels = (None, 3000, 12000, 700)[ch.draw(4, kind="chunk_size")]
 
     def describe(self):
         d = fitsgen.describe(self.col)
         d["stage"] = self.name
         d["tile_format"] = self.fmt
+        d["chunk_pixels"] = self.chunk_pixels
         return d
 
     def expected(self):
@@ -132,6 +237,47 @@ class MultiWcsStage(object):
         corrupt_one(self, d)
 
     def run(self, parallel, rec, env_dir=None):
+        from toasty import multi_wcs
+        from toasty.multi_wcs import MultiWcsProcessor
+        shipped = multi_wcs.MAXIMUM_CHUNK_SIZE
+        if self.chunk_pixels is not None:
+            multi_wcs.MAXIMUM_CHUNK_SIZE = self.chunk_pixels
+        try:
+            return self._run(parallel, rec, env_dir)
+        finally:
+            multi_wcs.MAXIMUM_CHUNK_SIZE = shipped
+
+    def after_serial(self, d):
+        self.reference = (Counter(), defined_masks(os.path.join(d, "out"), self.fmt))
+        for v, n in self.last_reprojected:
+            self.reference[0][v] += n
+
+    def check_outputs(self, d):
+        ref = getattr(self, "reference", None)
+        if ref is None:
+            return None
+        got = Counter()
+        for v, n in self.last_reprojected:
+            got[v] += n
+        if got != ref[0]:
+            bad = sorted(v for v in set(got) | set(ref[0]) if got.get(v, 0) != ref[0].get(v, 0))[:3]
+            return "pixels reprojected per input image differ from the serial mode: %s" % (
+                [(v, got.get(v, 0), ref[0].get(v, 0)) for v in bad],)
+        masks = defined_masks(os.path.join(d, "out"), self.fmt)
+        if masks != ref[1]:
+            diff = sorted(k for k in set(masks) | set(ref[1]) if masks.get(k) != ref[1].get(k))[:4]
+            return "output tiles do not have the same defined pixels as in the serial mode: %s" % (diff,)
+        return None
+
+    def _run(self, parallel, rec, env_dir):
+        from toasty.multi_wcs import MultiWcsProcessor
+        del REPROJECTED[:]
+        try:
+            return self._run2(parallel, rec, env_dir)
+        finally:
+            self.last_reprojected = list(REPROJECTED)
+
+    def _run2(self, parallel, rec, env_dir):
         from toasty.multi_wcs import MultiWcsProcessor
         coll = collection.load(self.col.paths)
         pio = RecordingPIO(os.path.join(env_dir, "out"), default_format=self.fmt)
@@ -139,4 +285,4 @@ class MultiWcsStage(object):
         b = Builder(pio)
         proc = MultiWcsProcessor(coll)
         proc.compute_global_pixelization(b)
-        proc.tile(pio, standin_reproject, parallel=parallel)
+        proc.tile(pio, standin_reproject, parallel=parallel, **common.pkw())
